@@ -23,6 +23,8 @@ typedef struct {
 	uint16_t          port;
 	int               af; // address family
 	bool              closed;
+	bool              busy;  // a resolve or connect is in flight on resaio/conaio
+	bool              stale; // ... and the dial it was started for is gone
 	nng_sockaddr      sa;
 	nni_tcp_dialer   *d;      // platform dialer implementation
 	nni_aio           resaio; // resolver aio
@@ -43,6 +45,11 @@ tcp_dial_cancel(nni_aio *aio, void *arg, nng_err rv)
 		nni_aio_finish_error(aio, rv);
 
 		if (nni_list_empty(&d->conaios)) {
+			// Nobody waits for the resolve / connect in flight any
+			// more.  Its outcome belongs to no one: a dial that
+			// arrives before its callback has run must not reuse
+			// the (still busy) internal aios, nor inherit its result.
+			d->stale = d->busy;
 			nni_aio_abort(&d->conaio, NNG_ECANCELED);
 			nni_aio_abort(&d->resaio, NNG_ECANCELED);
 		}
@@ -53,9 +60,10 @@ tcp_dial_cancel(nni_aio *aio, void *arg, nng_err rv)
 static void
 tcp_dial_start_next(tcp_dialer *d)
 {
-	if (nni_list_empty(&d->conaios)) {
+	if (d->busy || nni_list_empty(&d->conaios)) {
 		return;
 	}
+	d->busy = true;
 	memset(&d->resolv, 0, sizeof(d->resolv));
 	d->resolv.ri_family  = d->af;
 	d->resolv.ri_passive = false;
@@ -80,6 +88,17 @@ tcp_dial_res_cb(void *arg)
 			nni_list_remove(&d->conaios, aio);
 			nni_aio_finish_error(aio, NNG_ECLOSED);
 		}
+		d->busy  = false;
+		d->stale = false;
+		nni_mtx_unlock(&d->mtx);
+		return;
+	}
+	if (d->stale) {
+		// this resolve was for a dial that has been canceled since;
+		// start over for the dial(s) that arrived meanwhile.
+		d->busy  = false;
+		d->stale = false;
+		tcp_dial_start_next(d);
 		nni_mtx_unlock(&d->mtx);
 		return;
 	}
@@ -89,6 +108,7 @@ tcp_dial_res_cb(void *arg)
 		nni_aio_finish_error(aio, rv);
 
 		// try DNS again for next connection...
+		d->busy = false;
 		tcp_dial_start_next(d);
 
 	} else {
@@ -106,14 +126,22 @@ tcp_dial_con_cb(void *arg)
 	int         rv;
 
 	nni_mtx_lock(&d->mtx);
-	rv = nni_aio_result(&d->conaio);
-	if ((d->closed) || ((aio = nni_list_first(&d->conaios)) == NULL)) {
+	rv      = nni_aio_result(&d->conaio);
+	d->busy = false;
+	if ((d->closed) || (d->stale) ||
+	    ((aio = nni_list_first(&d->conaios)) == NULL)) {
 		if (rv == 0) {
 			// Make sure we discard the underlying connection.
 			nng_stream_close(nni_aio_get_output(&d->conaio, 0));
 			nng_stream_stop(nni_aio_get_output(&d->conaio, 0));
 			nng_stream_free(nni_aio_get_output(&d->conaio, 0));
 			nni_aio_set_output(&d->conaio, 0, NULL);
+		}
+		d->stale = false;
+		if (!d->closed) {
+			// dials that arrived while the canceled one was
+			// still winding down
+			tcp_dial_start_next(d);
 		}
 		nni_mtx_unlock(&d->mtx);
 		return;
